@@ -47,7 +47,11 @@ impl Idx {
                 Some(json!({"ep": ep.map(|x| x.as_u64()).unwrap_or(0), "maxl": maxl,
                     "nodes": nodes.iter().map(|(id, ls)| json!([id.as_u64(), ls.iter().map(|l| l.iter().map(|x| x.as_u64()).collect::<Vec<_>>()).collect::<Vec<_>>()])).collect::<Vec<_>>()}))
             }
-            Idx::Quant(_) => None,
+            Idx::Quant(i) => {
+                let (ep, maxl, nodes) = i.verif_dump();
+                Some(json!({"ep": ep.map(|x| x.as_u64()).unwrap_or(0), "maxl": maxl, "quant": true,
+                    "nodes": nodes.iter().map(|(id, ls)| json!([id.as_u64(), ls.iter().map(|l| l.iter().map(|x| x.as_u64()).collect::<Vec<_>>()).collect::<Vec<_>>()])).collect::<Vec<_>>()}))
+            }
         }
     }
 }
